@@ -114,11 +114,12 @@ def argsHas (lower : String → String) (r : List String) (items : List String) 
   items.all (fun i => stringInSlice lower i r)
 
 /-- `Arguments.Matches(items...)`: same length, every item occurs (case-insensitively) in `r`, and
-    the number of distinct items (the keys of `found`, exact strings) equals `len(r)`. -/
+    the number of distinct items (the keys of `found`: lower-cased strings since repair f1e5ad8, exact
+    strings before) equals `len(r)`. -/
 def argsMatches (lower : String → String) (r : List String) (items : List String) : Bool :=
   if r.length != items.length then false
   else if !items.all (fun i => stringInSlice lower i r) then false
-  else items.eraseDups.length == r.length
+  else (items.map lower).eraseDups.length == r.length
 
 /-- `Arguments.ExactOne(name)` -/
 def argsExactOne (r : List String) (name : String) : Bool :=
